@@ -4,6 +4,7 @@ import (
 	"fmt"
 	"github.com/internetarchive/Zeno/internal/pkg/source/lq/sqlc_model"
 	"net/http"
+	"net/url"
 	"path/filepath"
 	"regexp"
 	"sort"
@@ -666,6 +667,31 @@ func (o *oC06) OnEnd(k *Kernel) {
 	}
 	for _, ol := range o.t.outlinks {
 		if len(cfg.DomainsCrawl) > 0 {
+			// reference: a host matches a crawl domain when it is that domain or a sub-domain of it (label boundary)
+			host := ""
+			if u, err := url.Parse(ol.raw); err == nil {
+				host = u.Hostname()
+			}
+			match := false
+			for _, d := range cfg.DomainsCrawl {
+				d = strings.TrimPrefix(d, "http://")
+				if host == d || strings.HasSuffix(host, "."+d) {
+					match = true
+				}
+			}
+			k.Probe("c06-domains-crawl-outlinks")
+			if match {
+				if ol.hops != 0 {
+					k.Violate("C06", "hops", "domain-outlink-hops-not-reset", fmt.Sprintf("outlink %s matches --domains-crawl %v but carries hops %d", ol.raw, cfg.DomainsCrawl, ol.hops))
+				}
+			} else {
+				if ol.pHops >= cfg.MaxHops {
+					k.Violate("C06", "hops", "outlink-beyond-max-hops", fmt.Sprintf("outlink %s does not match --domains-crawl %v and was queued from a page with hops %d, max-hops %d", ol.raw, cfg.DomainsCrawl, ol.pHops, cfg.MaxHops))
+				}
+				if ol.hops != ol.pHops+1 {
+					k.Violate("C06", "hops", "outlink-hops-wrong", fmt.Sprintf("outlink %s (no --domains-crawl match) carries hops %d, parent page has %d", ol.raw, ol.hops, ol.pHops))
+				}
+			}
 			continue
 		}
 		if ol.pHops >= cfg.MaxHops {
